@@ -246,6 +246,28 @@ CHECKS = {
     },
 }
 
+_EXTRA = {
+    "C01": " Inputs also as strided views, native complex arrays on complex-float channels and flat I/Q; range bounds also as numpy int64 / uint64 scalars; every fourth run is multi-session with an early reader that polls the planned window; readers run under seeded non-UTC time zones.",
+    "C02": " Further tiers: restart after the kill (inside the period in progress, or at get_bounds()[1]+1 inside a published file - the write must be refused), no tmp. file after the restarted recorder's clean close, 64 KiB+ writes into un-chunked files, channel paths below a tmp.* directory.",
+    "C05": " Invalid classes also cover negative indices, indices that overflow 64 bits with the start index, two-block overlaps at the start of a recording, 1-vs-k length mismatches and offsets past the end of flat I/Q input.",
+    "C08": " One-reader sequences read / get_bounds / read, numpy-typed bounds, channels starting at index 0, the early reader's bounds in multi-session runs.",
+    "C09": " Every reader age also polls the whole planned window at every boundary; a third of the second-session runs back-fill periods before the first session's data.",
+    "C10": " Also judged: a pre-fault file that disappears, the published drf_properties.h5, 64 KiB+ writes (pwrite from inside H5Dwrite), channel paths below a tmp.* directory.",
+    "C11": " Mismatch classes include the same rate as another fraction; writes that start in free periods and run into a finalized one are generated (refusal, untouched file, writer usable afterwards; the kept-or-dropped leading part is read off the tree); top-level directories named tmp.*; 300+ character paths.",
+    "C12": " Process time zones, non-ASCII strings, deep nesting, back-fill and non-ascending batches, reads with the end omitted and reads naming a missing column are part of the histories.",
+    "C13": " Rates up to 3.6e10/1001 Hz, process time zones, back-fill and non-ascending batches, readers created before the first write.",
+    "C14": " Trees at the Unix epoch, in a time-stamp-named root, with tmp-prefixed metadata names, blank-containing channel names and suffixed look-alike subdirectories; bounds with sub-millisecond parts and in other zones.",
+    "C16": " World script includes renames to names outside the format, symlinked data files, first reports by modification, files spread over several subdirectories.",
+    "C17": " Also: stale files at the destination, a downstream consumer emptying the destination between rounds, the start-up listing as completeness oracle for start(), deletions of unselected source files.",
+    "C18": " Also: destination pre-occupied (short / same-size files), source and destination reached through symbolic links, time identifiers in several forms, --only with nested channels, name-prefix and blank-containing channels.",
+    "C19": " Every sixth run judges only the counters of a recording whose relative positions pass 2**63; 15% of the sessions end by an exception leaving a with-block; flat I/Q input.",
+    "C20": " RF-reader metadata queries before the first metadata write, back-fill writes with old readers alive, reads naming a missing column after clock jumps. One seeded change (S-C20l: RF reader created before the metadata directory exists) is not reached by this engine - see DESIGN.md section 12.",
+}
+for _k, _v in _EXTRA.items():
+    CHECKS[_k]["note"] = CHECKS[_k]["note"] + _v
+for _k in CHECKS:
+    CHECKS[_k]["note"] += " Which seeded changes this check catches: seeded/SUMMARY.md; what each miss added: DESIGN.md section 12."
+
 _PENDING = "check not built yet in this round (planned in DESIGN.md section 5); not claimed until it exists"
 NOT_APPLICABLE = {
     "C03": "pure integer function of (index, n, d): no state, I/O, schedule, clock or fault for a simulator to vary; "
